@@ -2,6 +2,7 @@ package seq
 
 import (
 	"fmt"
+	gometrics "github.com/hashicorp/go-metrics/compat"
 	"go/ast"
 	"go/parser"
 	"go/token"
@@ -10,6 +11,7 @@ import (
 	"sort"
 	"strconv"
 	"strings"
+	"sync"
 	"testing"
 
 	"github.com/hashicorp/raft"
@@ -433,4 +435,117 @@ func TestC20CallSites(t *testing.T) {
 	if n < 10 {
 		t.Fatalf("call-site scan found only %d sites: scanner broken", n)
 	}
+}
+
+// ---- go-metrics collector under two emitters at once: each observation reaches the sink under its own name
+
+type gateSink struct {
+	mu      sync.Mutex
+	counts  map[string]float32
+	first   chan struct{}
+	release chan struct{}
+	armed   bool
+}
+
+func (s *gateSink) record(key []string, val float32) {
+	s.mu.Lock()
+	hold := s.armed
+	s.armed = false
+	s.mu.Unlock()
+	if hold {
+		close(s.first)
+		<-s.release // the first emitter is held inside the sink with its key slice in hand
+	}
+	s.mu.Lock()
+	s.counts[strings.Join(key, ".")] += val
+	s.mu.Unlock()
+}
+func (s *gateSink) SetGauge(key []string, val float32) { s.record(key, val) }
+func (s *gateSink) SetGaugeWithLabels(key []string, val float32, _ []gometrics.Label) {
+	s.record(key, val)
+}
+func (s *gateSink) EmitKey(key []string, val float32)     {}
+func (s *gateSink) IncrCounter(key []string, val float32) { s.record(key, val) }
+func (s *gateSink) IncrCounterWithLabels(key []string, val float32, _ []gometrics.Label) {
+	s.record(key, val)
+}
+func (s *gateSink) AddSample(key []string, val float32)                                      {}
+func (s *gateSink) AddSampleWithLabels(key []string, val float32, _ []gometrics.Label)       {}
+func (s *gateSink) SetPrecisionGauge(key []string, val float64)                              {}
+func (s *gateSink) SetPrecisionGaugeWithLabels(key []string, v float64, _ []gometrics.Label) {}
+
+type GMCase struct {
+	PrefixLen int `json:"plen"`
+	SpareCap  int `json:"spare"`
+	A         int `json:"a"` // index of the counter the held emitter reports
+	B         int `json:"b"` // index of the counter reported meanwhile
+	N         int `json:"n"` // how many times B is reported while A is held
+}
+
+func TestC20GoMetricsConcurrent(t *testing.T) {
+	names := []string{}
+	for _, d := range wal.MetricDefinitions.Counters {
+		names = append(names, d.Name)
+	}
+	common.Run(t, "C20", "C20GoMetricsConcurrent", func(t *rapid.T) GMCase {
+		return GMCase{PrefixLen: rapid.IntRange(0, 3).Draw(t, "plen"), SpareCap: rapid.IntRange(0, 4).Draw(t, "spare"),
+			A: rapid.IntRange(0, len(names)-1).Draw(t, "a"), B: rapid.IntRange(0, len(names)-1).Draw(t, "b"), N: rapid.IntRange(1, 3).Draw(t, "n")}
+	}, func(c GMCase) (res common.Result) {
+		sink := &gateSink{counts: map[string]float32{}, first: make(chan struct{}), release: make(chan struct{}), armed: true}
+		conf := gometrics.DefaultConfig("")
+		conf.EnableHostname = false
+		conf.EnableHostnameLabel = false
+		conf.EnableServiceLabel = false
+		conf.EnableRuntimeMetrics = false
+		conf.EnableTypePrefix = false
+		conf.ServiceName = ""
+		gm, err := gometrics.New(conf, sink)
+		if err != nil {
+			res.Fail = common.Failf("harness", "go-metrics: %v", err)
+			return
+		}
+		defer gm.Shutdown()
+		prefix := make([]string, c.PrefixLen, c.PrefixLen+c.SpareCap)
+		for i := range prefix {
+			prefix[i] = fmt.Sprintf("p%d", i)
+		}
+		col := metrics.NewGoMetricsCollector(prefix, nil, gm)
+		a, b := names[c.A], names[c.B]
+		done := make(chan struct{})
+		go func() { col.IncrementCounter(a, 1); close(done) }()
+		select {
+		case <-sink.first:
+		case <-done:
+			res.Fail = common.Failf("harness", "the sink was never reached")
+			return
+		}
+		for i := 0; i < c.N; i++ {
+			col.IncrementCounter(b, 1)
+		}
+		close(sink.release)
+		<-done
+		want := map[string]float32{}
+		key := func(n string) string { return strings.Join(append(append([]string{}, prefix...), n), ".") }
+		want[key(a)] += 1
+		want[key(b)] += float32(c.N)
+		sink.mu.Lock()
+		defer sink.mu.Unlock()
+		for k, v := range want {
+			if sink.counts[k] != v {
+				res.Fail = common.Failf("gometrics-misattributed", "while IncrementCounter(%q) was inside the sink, IncrementCounter(%q) was called %d times (prefix len %d cap %d): the sink counted %v, true totals %v", a, b, c.N, len(prefix), cap(prefix), sink.counts, want)
+				return
+			}
+		}
+		for k := range sink.counts {
+			if _, ok := want[k]; !ok {
+				res.Fail = common.Failf("gometrics-misattributed", "the sink received an observation under %q which nobody emitted (counts %v)", k, sink.counts)
+				return
+			}
+		}
+		res.NonTrivial = c.SpareCap > 0 && a != b
+		if c.SpareCap > 0 {
+			res.Classes = append(res.Classes, "prefix-with-spare-capacity")
+		}
+		return
+	})
 }
